@@ -12,8 +12,8 @@ class C09(Cfg):
     harness_pkg = "dv-sync"
     model_exe = "dmodel_sync"
     design_ref = "DESIGN.md §6 C09, App. A.5, A.6, A.7"
-    technique = ("Lean 4 invariant proof over a literal model of the marks and of DailyLogsUpdate::compute (including the row-by-row "
-                 "evaluation of its SELECT under the loop's own updates) + correspondence run of the compiled model against 1-2 real "
+    technique = ("Lean 4 invariant proof over a literal model of the marks and of DailyLogsUpdate::compute (the row-by-row evaluation of its "
+                 "SELECT under the loop's own updates, fixed by 079e672, stays in the model behind a switch) + correspondence run of the compiled model against 1-2 real "
                  "GraphDatabaseService instances (logical clock, writer batches forced with a gate statement, real pulls) + an "
                  "independent from-scratch recomputation of every log row by the harness with the real hash function")
     level_text = ("Theorems (Lean 4; any number of rooms, entities, days, writes, batches and recomputation points): for the intended behaviour "
@@ -23,13 +23,14 @@ class C09(Cfg):
                   "(count, daily hash of the sorted signatures, history(d1)=daily(d1), history(dk+1)=H(history(dk)++daily(dk))) of the stored content; "
                   "hence equal content => equal logs whatever the batching, and (hash = identity on what is fed) different per-day signature sets => different logs. "
                   "Every concrete write of the model (local create/update/move/reference/deletion, synchronised rows, synchronised deletion records) covers its days under Defects.none. "
-                  "For the code as it is the statement is FALSE: decide-checked witnesses for the dropped history seed, the entity not compared, the emptied day keeping a row, "
-                  "the lazily evaluated SELECT (a row chained with itself; later days not re-chained), the old day of a synchronised cross-day update, the reference deletion "
-                  "and the synchronised deletion of another version left unmarked; proved for the code as it is: every MARKED day gets the count and daily hash of its content. "
+                  "For the code as it is the statement is FALSE: decide-checked witnesses for the dropped history seed, the entity not compared, the emptied day keeping a row "
+                  "and the reference deletion left unmarked; proved for the code as it is: every MARKED day gets the count and daily hash of its content. "
+                  "Regression witnesses (fixed in /repo, switch off, corpus replay kept): the lazily evaluated SELECT (079e672), the old day of a synchronised cross-day update (8123d04), "
+                  "the synchronised deletion of another version (1a9cbe6). "
                   "The model is tied to /repo by running both on the same generated multi-day histories and comparing every table of every peer after every op.")
     level_note = ("Trusted: Lean kernel (+propext, Classical.choice, Quot.sound), the hand-written models lean/DiscretModel/Model/{DailyLog,Sync}.lean and the harness. "
                   "Modelled and exercised: daily_log.rs (marks, compute), the marking sites of mutation_query.rs, deletion.rs, node.rs, edge.rs, the batch writer's end-of-batch mark write, "
-                  "synchronise_room. Idealised: blake3 injective, signatures as opaque numbers. Exercised only: SQL text, SQLite's cursor behaviour under updates (its observed rule is part of the model).")
+                  "synchronise_room. Idealised: blake3 injective, signatures as opaque numbers. Exercised only: SQL text.")
     trusted_base = [
         "hand-written models lean/DiscretModel/Model/DailyLog.lean and Sync.lean, tied by the correspondence run (dv-sync vs dmodel_sync)",
         "harness/sync (real GraphDatabaseService instances, logical clock hook, writer batches forced by a blocking Writeable; the from-scratch recomputation uses SQL over _node and the deletion logs and the blake3 crate)",
